@@ -493,6 +493,7 @@ fn c14_private(out: &mut Out, rng: &mut Rng, thorough: bool, t0: std::time::Inst
         }
     }
 
+    out.note("c14-private", &format!("F1 pair done; elapsed {:?}", t0.elapsed()));
     // ---- generated commit cases
     struct Job {
         n: usize,
@@ -548,7 +549,7 @@ fn c14_private(out: &mut Out, rng: &mut Rng, thorough: bool, t0: std::time::Inst
                     _ => {}
                 }
             }
-            jobs.push(Job { n, ch, tag, prove: rep % 10 == 0 });
+            jobs.push(Job { n, ch, tag, prove: rep % 6 == 0 });
         }
     }
     // in chunks, likely-accepted vectors first, so that provers handed back by accepted commits are reused by later cases
@@ -558,6 +559,7 @@ fn c14_private(out: &mut Out, rng: &mut Rng, thorough: bool, t0: std::time::Inst
     for chunk in jobs.chunks(8) {
         obs.extend(chunk.par_iter().map(|j| private_commit(&ctx, j.n, &j.ch, j.prove)).collect::<Vec<_>>());
     }
+    out.note("c14-private", &format!("commits done; elapsed {:?}", t0.elapsed()));
     // explicit evaluation of the padded batch (supplied order + one random order) whenever it is a vector of valid child
     // proofs that fits: "rejected => indeed unprovable", "accepted => provable in any order"
     struct Ex {
@@ -955,10 +957,16 @@ fn c16_leaf(out: &mut Out, rng: &mut Rng, thorough: bool, t0: std::time::Instant
     }
     // (2) the direct constructor: every single-position class + a sample of the rest
     let cfg = no_zk(wormhole_private_batch_circuit_config());
+    let mut seen_tags: std::collections::HashSet<String> = Default::default();
+    let wanted: Vec<String> = ["good", "all-zero", "short", "tampered@4", "tampered@16"]
+        .iter()
+        .map(|s| s.to_string())
+        .chain([0usize, 1, 2, 3, 4, 8, 11, 12, 15, 16, 19, 20].iter().map(|i| format!("valid-deviation@{}", i)))
+        .collect();
     let picked: Vec<&(String, Child)> = variants
         .iter()
         .enumerate()
-        .filter(|(i, (tag, _))| thorough || tag.starts_with("good") || tag.starts_with("all-zero") || tag.starts_with("short") || (tag.starts_with("valid-deviation@") && !tag.contains('+') && i % 2 == 0) || (tag.starts_with("tampered@") && i % 5 == 0) || (tag.contains('+') && i % 6 == 0))
+        .filter(|(i, (tag, _))| thorough || (wanted.contains(tag) && seen_tags.insert(tag.clone())) || (tag.contains('+') && i % 12 == 0))
         .map(|(_, x)| x)
         .collect();
     let res: Vec<Result<(), String>> = picked
@@ -1026,7 +1034,33 @@ fn tmp_dir(tag: &str) -> std::path::PathBuf {
     d
 }
 
+/// the artifact generators print progress lines to stdout: while they run, fd 1 points to stderr
+struct StdoutToStderr(i32);
+impl StdoutToStderr {
+    fn new() -> Self {
+        use std::io::Write as _;
+        std::io::stdout().flush().unwrap();
+        unsafe {
+            let saved = libc::dup(1);
+            libc::dup2(2, 1);
+            StdoutToStderr(saved)
+        }
+    }
+}
+impl Drop for StdoutToStderr {
+    fn drop(&mut self) {
+        use std::io::Write as _;
+        let _ = std::io::stdout().flush();
+        unsafe {
+            libc::dup2(self.0, 1);
+            libc::close(self.0);
+        }
+    }
+}
+
 fn c16_canonical(out: &mut Out, thorough: bool, t0: std::time::Instant) {
+    out.flush();
+    let _quiet = StdoutToStderr::new();
     use wormhole_aggregator::private_batch::circuit::build::generate_private_batch_circuit_binaries;
     let templates = canonical_leaf_templates(thorough);
     out.note("c16-canonical", &format!("{} real leaf proofs against the canonical leaf circuit; elapsed {:?}", templates.len(), t0.elapsed()));
@@ -1214,7 +1248,7 @@ fn c16_private_batch_templates(out: &mut Out, rng: &mut Rng, thorough: bool, t0:
             n_direct += 1;
         }
         // the direct constructor
-        let picked: Vec<&(String, Child)> = v.iter().enumerate().filter(|(i, (tag, _))| !tag.starts_with("tampered") || (thorough && i % 3 == 0) || (!thorough && n_leaf == 1 && i % 7 == 0)).map(|(_, x)| x).collect();
+        let picked: Vec<&(String, Child)> = v.iter().enumerate().filter(|(i, (tag, _))| !tag.starts_with("tampered") || (thorough && i % 3 == 0) || (!thorough && n_leaf == 1 && i % 9 == 0)).map(|(_, x)| x).collect();
         let res: Vec<Result<(), String>> = picked
             .par_iter()
             .map(|(_, c)| PublicBatchProver::new(wormhole_public_batch_circuit_config(), vd.common.clone(), &vd.verifier_only, 1, n_leaf, c.proof.clone()).map(|_| ()).map_err(|e| format!("{:#}", e)))
